@@ -1,5 +1,6 @@
 import J5V.Compile.PermFiles
 import J5V.Compile.CacheProofs
+import J5V.Compile.PermPkgs
 import J5V.Generated.MaprangeFacts
 /-!
 # C14 — compilation is deterministic
@@ -142,6 +143,24 @@ theorem C14_load_indep (b : Bundle) (r : Str → Nat) (hr : rankOk b r = true)
     loadPkg b f chain n = loadPkg b f' chain' n :=
   loadPkg_indep b r hr f f' chain chain' n hf hf' hc hc'
 
+/-- **Permuting the package listing.** With distinct package names, the order in which the file
+source lists the packages (`ListPackages()`) changes nothing: for every package, the converted
+files and the linked result are the same. (The listing only decides which names are local; the
+model finds a package by name.) Any number of packages, any dependency graph. -/
+theorem C14_perm_packages (b b' : Bundle) (hperm : b.pkgs.Perm b'.pkgs)
+    (hnd : (b.pkgs.map (·.name)).Nodup) (name : Str) :
+    compilePkg b name = compilePkg b' name ∧ compileLinked b name = compileLinked b' name :=
+  compile_perm_pkgs b b' hperm hnd name
+
+/-- **The link step under a permuted universe.** The files of the other packages (converted
+dependencies, hand-written protos) reach the linker through Go maps; with distinct file names the
+link result of a package's files does not depend on the order in which they are offered. -/
+theorem C14_link_perm_others (others others' : List LFile) (files : List FileSkel)
+    (hp : others.Perm others')
+    (hnd : ((files.map (·.lfile) ++ others ++ builtinFiles).map (·.name)).Nodup) :
+    linkFiles others files = linkFiles others' files :=
+  linkFiles_perm_others others others' files hp hnd
+
 /-! ## Non-vacuity -/
 
 /-- a two-file package (second file refers to the first) meeting the hypotheses of `C14_perm_files` -/
@@ -171,6 +190,16 @@ example : rankOk exBundle2 exRank = true := by decide
 example : ∀ n, exRank n < exBundle2.pkgs.length + 1 := by
   intro n; unfold exRank; split <;> decide
 example : (compileLinked exBundle2 b!"bar.v1").isOk = true := by decide
+
+/-- hypotheses of `C14_perm_packages` for `exBundle2` and its reversed listing; hypotheses of
+`C14_link_perm_others` for the files of `bar.v1` against the (reversed) files of `foo.v1` -/
+example : exBundle2.pkgs.Perm exBundle2.pkgs.reverse ∧ (exBundle2.pkgs.map (·.name)).Nodup :=
+  ⟨(List.reverse_perm _).symm, by decide⟩
+
+def exLoaded : Loaded := match loadPkg exBundle2 3 [] b!"bar.v1" with | .ok l => l | _ => default
+
+example : ((exLoaded.files.map (·.lfile) ++ exLoaded.depFiles.map (·.lfile) ++ builtinFiles).map (·.name)).Nodup ∧
+    exLoaded.depFiles.length = 2 := by decide
 
 example : DistinctExports
     [ { path := b!"a", pkg := b!"p", exports := [(b!"A", ⟨b!"p", b!"A", b!"a", .message false⟩)], depPkgs := [] },
